@@ -278,11 +278,21 @@ def setMany (m : Mode) (b : Bool) : Bits → List Int → Except Err Bits
 
 def setOp (m : Mode) (l : Bits) (b : Bool) : PosSpec → Except Err Bits
   | .all =>
-    -- `self._setint(-1 if value else 0)`: needs a non-zero length (CreationError)
-    if l.length = 0 then .error .value else .ok (List.replicate l.length b)
+    -- `if len(self) != 0: self._setint(-1 if value else 0)`
+    if l.length = 0 then .ok l else .ok (List.replicate l.length b)
   | .one i => setMany m b l [i]
   | .many ps => setMany m b l ps
-  | .range a b' c => setitemSliceBit m l ⟨some a, some b', some c⟩ b
+  | .range a b' c =>
+    if c = 0 then .error .value else            -- `range()` itself refuses a zero step
+    let idx := Py.rangeList a b' c
+    -- a non-empty range whose first and last element are valid non-negative indices is written as ONE slice
+    match idx.head?, idx.getLast? with
+    | some first, some last =>
+      if 0 ≤ first ∧ first < l.length ∧ 0 ≤ last ∧ last < l.length then
+        let stop : Option Int := if c > 0 then some (last + 1) else (if last > 0 then some (last - 1) else none)
+        setitemSliceBit m l ⟨some first, stop, some c⟩ b
+      else setMany m b l idx
+    | _, _ => setMany m b l idx
 
 /-- `BitArray._setitem_slice` with an integer value (bitarray_.py:173). -/
 def setSliceInt (m : Mode) (l : Bits) (k : Key) (v : Int) : Except Err Bits :=
@@ -296,15 +306,14 @@ def setSliceInt (m : Mode) (l : Bits) (k : Key) (v : Int) : Except Err Bits :=
         setOp m l (v = 1) (.range r.1 r.2.1 r.2.2)
     else .error .value
   else
-    match getslice m l k.start k.stop with
-    | .error e => .error e
-    | .ok s =>
-      let len := s.length
-      if len = 0 then .error .value else            -- uint/int initialiser needs a non-zero length
-      if v ≥ 0 then
-        if v ≥ (2 : Int) ^ len then .error .value else setitemSlice m l k (natToBits len v.toNat)
-      else
-        if v < -((2 : Int) ^ (len - 1)) then .error .value else setitemSlice m l k (intToBits len v)
+    -- `length = len(range(*key.indices(len(self))))` (the step is None, 1 or -1 here)
+    let r := Py.sliceIndices k.start k.stop (k.step.getD 1) l.length
+    let len := Py.rangeLen r.1 r.2.1 r.2.2
+    if len = 0 then .error .value else            -- uint/int initialiser needs a non-zero length
+    if v ≥ 0 then
+      if v ≥ (2 : Int) ^ len then .error .value else setitemSlice m l k (natToBits len v.toNat)
+    else
+      if v < -((2 : Int) ^ (len - 1)) then .error .value else setitemSlice m l k (intToBits len v)
 
 def delItem (m : Mode) (l : Bits) (i : Int) : Except Err Bits := delitemIdx m l i
 def delSliceOp (m : Mode) (l : Bits) (k : Key) : Except Err Bits := delitemSlice m l k
@@ -496,6 +505,7 @@ def rfindOp (m : Mode) (l t : Bits) (start stop : Option Int) (ba : Bool) : Exce
 def findallOp (m : Mode) (l t : Bits) (start stop : Option Int) (count : Option Int) (ba : Bool) :
     Except Err (List Nat) :=
   if countNeg count then .error .value else
+  if t.length = 0 then .error .value else
   match validateSlice l.length start stop with
   | .error e => .error e
   | .ok (a, b) => findall_ m l t a b (count.map Int.toNat) ba
@@ -587,11 +597,11 @@ def replace_ (m : Mode) (l old new : Bits) (a b : Nat) (count : Nat) (ba : Bool)
 /-- `BitArray.replace` (bitarray_.py:304). -/
 def replaceOp (m : Mode) (l old new : Bits) (start stop : Option Int) (count : Option Int) (ba : Bool) :
     Except Err (Nat × Bits) :=
-  if count = some 0 then .ok (0, l) else
   if old.length = 0 then .error .value else
   match validateSlice l.length start stop with
   | .error e => .error e
   | .ok (a, b) =>
+    if count = some 0 then .ok (0, l) else
     -- a negative count never equals `len(starting_points)`: every occurrence is replaced
     let c : Nat := match count with | none => 0 | some c => if c < 0 then l.length + 1 else c.toNat
     replace_ m l old new a b c ba
@@ -600,15 +610,15 @@ def replaceOp (m : Mode) (l old new : Bits) (start stop : Option Int) (count : O
 
 /-- `BitArray.insert` (bitarray_.py:337). -/
 def insertOp (m : Mode) (l v : Bits) (pos : Int) : Except Err Bits :=
-  if v.length = 0 then .ok l else
   let p := if pos < 0 then pos + l.length else pos
-  if ¬ (0 ≤ p ∧ p ≤ l.length) then .error .value else insert_ m l v p
+  if ¬ (0 ≤ p ∧ p ≤ l.length) then .error .value else
+  if v.length = 0 then .ok l else insert_ m l v p
 
 /-- `BitArray.overwrite` (bitarray_.py:356). -/
 def overwriteOp (m : Mode) (l v : Bits) (pos : Int) : Except Err Bits :=
-  if v.length = 0 then .ok l else
   let p := if pos < 0 then pos + l.length else pos
-  if p < 0 ∨ p > l.length then .error .value else overwrite_ m l v p
+  if p < 0 ∨ p > l.length then .error .value else
+  if v.length = 0 then .ok l else overwrite_ m l v p
 
 /-- `_append_msb0` = `_addright`, `_append_lsb0` = `_addleft` (bitarray_.py:390-395). -/
 def appendMsb0 (l v : Bits) : Bits := l ++ v
@@ -674,7 +684,7 @@ def byteswapOp (m : Mode) (l : Bits) (fmt : Option (List Int)) (start stop : Opt
     | .ok sizes =>
       let total := 8 * sizes.sum
       if total = 0 then .ok (0, l) else
-      let finalbit := if repeat_ then b else a + total
+      let finalbit := if repeat_ then b else min (a + total) b      -- one pattern, and only if it fits before `end`
       let iters := Py.rangeLen ((a : Int) + total) ((finalbit : Int) + 1) total
       match byteswapLoop m sizes total iters l ((a : Int) + total) 0 with
       | .error e => .error e
@@ -685,7 +695,7 @@ def rolBody (m : Mode) (l : Bits) (bits : Nat) (start stop : Option Int) : Excep
   match validateSlice l.length start stop with
   | .error e => .error e
   | .ok (a, b) =>
-    if b - a = 0 then .error (.internal "ZeroDivisionError") else
+    if b - a = 0 then .ok l else                       -- `if start == end: return`
     let k := bits % (b - a)
     if k = 0 then .ok l else
     match slice_ m l a (a + k) with
@@ -699,7 +709,7 @@ def rorBody (m : Mode) (l : Bits) (bits : Nat) (start stop : Option Int) : Excep
   match validateSlice l.length start stop with
   | .error e => .error e
   | .ok (a, b) =>
-    if b - a = 0 then .error (.internal "ZeroDivisionError") else
+    if b - a = 0 then .ok l else                       -- `if start == end: return`
     let k := bits % (b - a)
     if k = 0 then .ok l else
     match slice_ m l ((b : Int) - k) b with
@@ -862,9 +872,14 @@ def alignedFind (ba : Bool) : Bool := ba
 /-- `findall` with `bytealigned=True` and a `count` -/
 def countAligned {α} (count : Option α) (ba : Bool) : Bool := ba ∧ count.isSome
 
-/-- `set(value, range(...))` and `x[a:b:c] = 0|1` with an extended step -/
-def setRange : PosSpec → Bool
-  | .range _ _ _ => true
+/-- `set(value, range(...))` (and `x[a:b:c] = 0|1` with an extended step, which calls it) for a non-empty range
+    whose first and last element are valid non-negative indices: the range is written as one slice -/
+def setRange (P : PosSpec) (n : Nat) : Bool :=
+  match P with
+  | .range a b c =>
+    c ≠ 0 ∧ (match (Py.rangeList a b c).head?, (Py.rangeList a b c).getLast? with
+      | some first, some last => decide (0 ≤ first ∧ first < n ∧ 0 ≤ last ∧ last < n)
+      | _, _ => false)
   | _ => false
 
 /-- `findall` (and `replace`, which is written with it) over a window longer than one chunk -/
